@@ -89,7 +89,7 @@ static bool extra(const std::vector<std::string>& t, const std::vector<std::stri
         mjs_asGeom(e)->size[0] = 0.2;
       } else if (k == "mesh") {
         mjsElement* e = mjs_findElement(s, mjOBJ_MESH, "m1"); if (!e) mk_die("no mesh m1");
-        mjs_asMesh(e)->scale[0] = 2; mjs_asMesh(e)->scale[2] = 0.5;
+        mjs_asMesh(e)->scale[0] = -2; mjs_asMesh(e)->scale[2] = 0.5;   // mirrored from now on
       } else if (k == "addchild") {
         mjsBody* p = mjs_findBody(s, "b1"); if (!p) mk_die("no body b1");
         mjsBody* b = mjs_addBody(p, nullptr); mjs_setName(b->element, "bx"); b->pos[2] = 0.3;
